@@ -215,11 +215,13 @@ def entriesInRange : List (List Int) → List Nat → Bool
 def Excluded_fancyRawIndex (shape : List Nat) (idxs : List (List Int)) : Bool :=
   !entriesInRange idxs shape
 
-/-- the same finding reached through an integer key: on a 1-d array `d[i,] = x` (a tuple) is routed to
-`_fancy_setitem`, so a negative or too large `i` is stored as given -/
-def Excluded_tupleRawIndex (shape : List Nat) (bare : Bool) (key : List KeyPart) : Bool :=
+/-- finding F-dok-1d-int-tuple: on a 1-d array a *tuple* of integers (`d[i,] = x`) is taken for an index
+list and routed to `_fancy_setitem`: a negative or too large `i` is stored as given, and two integers
+(`d[1, 2] = x`, too many indices for NumPy) set two elements.  Region: that route is taken and the key
+is not a single integer inside `[0, dim)`. -/
+def Excluded_tupleRoute (shape : List Nat) (bare : Bool) (key : List KeyPart) : Bool :=
   match tupleRoute shape bare key with
-  | some ints => !entriesInRange [ints] shape
+  | some ints => !(ints.length == 1 && entriesInRange [ints] shape)
   | none => false
 
 /-- finding F-dok-fancy-empty: empty index lists are rejected (float64 by default) -/
@@ -238,7 +240,7 @@ def Excluded_emptyTupleKey (bare : Bool) (key : List KeyPart) : Bool :=
 /-- the union of the known regions, per op (boolean masks are not supported at all:
 finding F-dok-boolmask) -/
 def Excluded (shape : List Nat) : Op α → Bool
-  | .set bare key _ => Excluded_negStepStart0 shape key || Excluded_tupleRawIndex shape bare key
+  | .set bare key _ => Excluded_negStepStart0 shape key || Excluded_tupleRoute shape bare key
       || Excluded_emptyTupleKey bare key
   | .fancy idxs v => Excluded_fancyRawIndex shape idxs || Excluded_fancyEmpty idxs || Excluded_fancyBcast1 idxs v
   | .mask _ _ => true
